@@ -247,13 +247,10 @@ Fixpoint sexp_eqb (a b : sexp) {struct a} : bool :=
   end.
 
 (** layout-decorated s-expressions: what a printer emits.  [text] is the emitted string, [strip]
-    the tree the printer means.  [LRawStr m] is a string printed between quotes WITHOUT escaping
-    (what `Display for GenericAction` does for the panic action, generic_ast_helpers.rs:151, and
-    `Display for GenericRule` for `:name`). *)
+    the tree the printer means. *)
 Inductive lsexp :=
 | LLit (l : lit)
 | LAtom (a : str)
-| LRawStr (m : str)
 | LList (items : list (str * lsexp)) (close_ws : str).
 
 Section WithFloatOracle.
@@ -352,7 +349,6 @@ Section WithFloatOracle.
     match l with
     | LLit x => print_lit x
     | LAtom a => a
-    | LRawStr m => c_quote :: m ++ [c_quote]
     | LList items cw =>
         c_lp :: (fix go (items : list (str * lsexp)) : str :=
                    match items with
@@ -365,7 +361,6 @@ Section WithFloatOracle.
     match l with
     | LLit x => SLit x
     | LAtom a => SAtom a
-    | LRawStr m => SLit (LStr m)
     | LList items _ => SList (List.map (fun p => strip (snd p)) items)
     end.
 
